@@ -158,32 +158,37 @@ Proof. exact addr_checksum_unchecked. Qed.
 Print Assumptions C13_addr_checksum_unchecked.
 
 (* ---------------------------------------------------------------------------------------------
-   MethodSignature.  PARTIAL: only signatures without double quote and backslash reach the
-   assembler as written (then the pushed value is the selector the assembler computes for that
-   text; the hash is the oracle table msel). *)
-Theorem C13_method_sig_text_safe_partial : forall msel (s : string) (sel : bytes),
-  forallb sigc (list_ascii_of_string s) = true ->
-  alookup String.eqb s msel = Some sel ->
-  parse_stmt msel (tokens_of_line ("method " ++ method_arg s)%string) = push_method sel.
-Proof. exact method_plain_ok. Qed.
-Print Assumptions C13_method_sig_text_safe_partial.
+   MethodSignature (after /repo ae4cf37, which rejects texts containing a double quote, a
+   backslash, LF or CR).  FULL statement: every accepted text is emitted as a line that splits
+   into exactly the op word and one literal, the literal reads back as exactly the text, and the
+   statement is the `method` instruction for that text (selector = the hash oracle msel). *)
+Theorem C13_method_sig_text_safe : forall msel (s line : string),
+  method_line s = Some line ->
+  tokens_of_line line = ["method"; method_arg s] /\
+  parse_string_literal (method_arg s) = Some (list_ascii_of_string s) /\
+  forall sel, alookup String.eqb s msel = Some sel ->
+              parse_stmt msel (tokens_of_line line) = push_method sel.
+Proof. exact method_literal_correct. Qed.
+Print Assumptions C13_method_sig_text_safe.
 
-(* The full statement is FALSE: the text is quoted without escaping.  A double quote inside it
-   breaks the line into three tokens that no longer assemble ... *)
-Theorem C13_method_sig_text_safe_refuted : forall msel,
-  exists line, method_line sig_w1 = Some line /\
-               tokens_of_line line = ["method"; """a""b"; "c()void"""] /\
-               parse_stmt msel (tokens_of_line line) = None.
-Proof. exact method_unescaped_breaks. Qed.
-Print Assumptions C13_method_sig_text_safe_refuted.
+(* ... inside a program text the line stays one line: no other character than LF ends a TEAL
+   line in the assembler model, and LF is rejected (VT, FF, FS, GS, RS, NEL, U+2028/9 - separators
+   for Python's str.splitlines only - are accepted and stay inside the literal). *)
+Theorem C13_method_sig_in_program : forall msel (pre post s line : string) (sel : bytes),
+  method_line s = Some line -> alookup String.eqb s msel = Some sel ->
+  statements_of_text msel (pre ++ nl ++ line ++ nl ++ post)%string =
+  match statements_of_text msel pre, statements_of_text msel post with
+  | Some x, Some y => Some (x ++ SInstr (mkP O_method_signature [IBytes sel]) :: y)
+  | _, _ => None
+  end.
+Proof. exact method_in_program. Qed.
+Print Assumptions C13_method_sig_in_program.
 
-(* ... or adds instructions to the program. *)
-Theorem C13_method_sig_injects_refuted : forall sel,
-  exists line, method_line sig_w2 = Some line /\
-    map (parse_stmt [("a", sel)]) (split_semis (tokens_of_line line) []) =
-      [push_method sel; push_int 1; push_bytes ["b"%char]].
-Proof. exact method_unescaped_injects. Qed.
-Print Assumptions C13_method_sig_injects_refuted.
+(* exactly the empty text and texts with one of the four characters are rejected *)
+Theorem C13_method_sig_rejects : forall s : string,
+  method_line s = None <-> (s = ""%string \/ existsb sig_bad (list_ascii_of_string s) = true).
+Proof. exact method_line_rejects. Qed.
+Print Assumptions C13_method_sig_rejects.
 
 (* ---------------------------------------------------------------------------------------------
    Side theorems for the previous-character variant of the tokeniser (Lit/GoTok.v): a closing
